@@ -125,6 +125,17 @@ def examine(t, s, v, tier, rng, want):
     accepted = []
     for w in thirds:
         cr = clean(r, w)
+        # `schema == value` is the library's other way of asking "does it accept": it may not say
+        # yes where the original schema says no
+        if plain and "C05" in want:
+            try:
+                eqv = (r == w) is True
+            except Exception:  # noqa: BLE001
+                eqv = False
+            if eqv and cr is not True:
+                out.append(("C05", f"result-equals-value-it-rejects|{tcls}|{tname(v)}", f"w={src(w)}"))
+            elif eqv and clean(s, w) is not True:
+                out.append(("C05", f"widened-through-eq|{tcls}|{tname(v)}", f"w={src(w)}"))
         if cr is True:
             accepted.append(w)
             if plain:
